@@ -28,6 +28,27 @@ class PreErr(Exception):
         self.code = code
 
 
+class PreFalsy(PreErr):
+    """a rejection whose truth value is False (a container-like exception): it is an exception all the same"""
+    def __len__(self):
+        return 0
+
+
+class PreStop(StopIteration):
+    """a preprocessor that lets a StopIteration escape (a bare next() on an exhausted helper): this element is rejected, the
+    stream goes on. An asyncio future cannot carry StopIteration and a generator cannot raise it, so it may arrive chained to
+    a RuntimeError: `exc_code` reads through that."""
+    def __init__(self, code):
+        super().__init__(code)
+        self.code = code
+
+
+def exc_code(e):
+    if isinstance(e, RuntimeError) and isinstance(e.__cause__, PreStop):
+        return e.__cause__.code
+    return getattr(e, 'code', 999)
+
+
 class SubmitErr(Exception):
     def __init__(self, code):
         super().__init__(code)
@@ -100,7 +121,7 @@ def core_cases():
 
 def code1(y):
     if isinstance(y, BaseException):
-        return v_exc(getattr(y, 'code', 999))
+        return v_exc(exc_code(y))
     return y if isinstance(y, int) else -999999
 
 
@@ -136,7 +157,8 @@ def mk_funcs(c):
 
     def pre(x):
         if x in pre_fail:
-            raise PreErr(pre_fail[x])
+            # codes 12 and 13: a falsy exception object and an escaping StopIteration - rejections like any other
+            raise {12: PreFalsy, 13: PreStop}.get(pre_fail[x], PreErr)(pre_fail[x])
         return x + PRE_OFFSET
 
     def source():
@@ -166,7 +188,7 @@ def consume_sync(it, c):
                 return out, 1
         return out, 0
     except Exception as e:  # noqa
-        return out, 2 + getattr(e, 'code', 999)
+        return out, 2 + exc_code(e)
 
 
 async def consume_async(ait, c):
@@ -180,7 +202,7 @@ async def consume_async(ait, c):
                 return out, 1
         return out, 0
     except Exception as e:  # noqa
-        return out, 2 + getattr(e, 'code', 999)
+        return out, 2 + exc_code(e)
 
 
 def run_variants(c):
